@@ -11,6 +11,7 @@ _FAMILIES = {
     "fullsync": ["C03", "C04", "C20"],
     "ckpt": ["C17"],
     "resync": ["C06"],
+    "bisync": ["C14", "C18"],
 }
 
 REGISTRY = {}
